@@ -621,6 +621,10 @@ func buildNJKey(w *world, b baseSpec) payload {
 	if b.C%4 == 3 {
 		doc = fmt.Sprintf(`{"bodyid":%d,"type":null}`, id)
 	}
+	if b.C%8 == 2 {
+		// the server-maintained companion fields, supplied by the caller with values of other types
+		doc = fmt.Sprintf(`{"bodyid":%d,"type":"t%d","type_time":%d,"type_user":{"x":1}}`, id, b.B%3, b.C)
+	}
 	q := []string{"?u=tester", "?u=tester&replace=true", "?u=other&conditional=type"}[b.B%3]
 	return jsonPayload("neuronjson/key", "POST", fmt.Sprintf("node/%s/nj/key/%d%s", w.root, id, q), doc, []string{"nj:list", fmt.Sprintf("nj:%d", id)})
 }
